@@ -196,3 +196,24 @@ def env_seed():
         return int(os.environ.get("VERIF_SEED", "0"))
     except ValueError:
         return 0
+
+
+def raised_in_library(exc):
+    """True if the traceback of exc passes through the optimism package under test."""
+    import traceback
+    repo = os.path.realpath(os.environ.get("VERIF_REPO", "/repo"))
+    for fs in traceback.extract_tb(exc.__traceback__):
+        if os.path.realpath(fs.filename).startswith(os.path.join(repo, "optimism")):
+            return True
+    return False
+
+
+def library_frames(exc, n=4):
+    import traceback
+    repo = os.path.realpath(os.environ.get("VERIF_REPO", "/repo"))
+    out = []
+    for fs in traceback.extract_tb(exc.__traceback__):
+        fn = os.path.realpath(fs.filename)
+        if fn.startswith(repo):
+            out.append("%s:%d %s" % (fn[len(repo) + 1:], fs.lineno, fs.name))
+    return out[-n:]
